@@ -6,6 +6,10 @@ ALL = ["C%02d" % i for i in range(1, 21)]
 
 CODEC_NOTE = "Trusted: the reflection bridge (identity-checked on every case), the schema universe and alphabets, the reference codecs, the Go toolchain. Schemas enter as the generator's intermediate JSON (the Java parser is absent). Small-scope bounds: depth <= 2 (3 on spines), <= 5 entries, strings <= 2 chars over the metacharacter set + tokens."
 CHECKS = {
+ "C13": dict(engine="enumx", category="model_checking", design="§3 C13",
+   technique="bounded-exhaustive enumeration of (default-bearing schema, subset of defaulted positions supplied/omitted, reader) on bindings generated at check time; oracle = reference parse of the schema literal; in-place mutation aliasing check over all maker pairs",
+   text="A dedicated universe declares 63 (field type, default literal) pairs (extremes, escapes, empty and nested containers, records with own defaults, every union member and enum symbol, fixed, typerefs) directly, in nested required records, in included records, two include levels deep and only-in-include; for every record every subset of defaulted positions is supplied or omitted in reference documents read by the JSON, ROR2 and untyped readers of both generations and by the generated constructor, and every ordered pair of independently obtained instances is checked for shared default storage.",
+   note=CODEC_NOTE),
  "C10": dict(engine="enumx", category="model_checking", design="§3 C10",
    technique="exhaustive pairwise comparison over enumerated value pools: generated Equals vs a reference structural equivalence, Equal => equal ComputeHash, hash purity across copies / map insertion orders / processes",
    text="For every wrapper record of the universe the pool of all reduced-alphabet single-deviation values plus copies, map-insertion-order rebuilds, nil<->empty swaps and round-tripped copies is built; every ordered pair (thorough) / every pair involving an alphabet value (quick) is put to the real generated Equals and ComputeHash of both generations: Equals must coincide with the reference equivalence (so it is reflexive, symmetric, transitive on the pool and distinguishes every single-position difference), Equal values must hash alike, and hashes of a common sub-pool must agree across all 16 shard processes.",
